@@ -69,6 +69,8 @@ const FIELD_POOL: &[&str] = &[
     "0", "1", "-1", "2147483647", "2147483648", "-2147483648", "1e99", "NaN", "inf", "", "0x10", "1,5", "131072", "131073", "9000", "9001", " 7 ", "+5", "1e2",
     "0.00000000000000005", "-0", "3.4028236e38", "1e-320", "x", ":", "|", "B", "P|1:1", "\u{4e0a}", "\"", "//", "[General]", "osu file format v3", "12:34",
     "1|2|3", "0:0:0:0:", "4294967296", "-9001", "255", "256", "128", "12", "6",
+    // non-ASCII where ASCII is expected: letters whose code point ends like an ASCII letter / digit, full-width and other digits
+    "\u{142}|1:1", "\u{142}", "\u{14c}", "\u{ff11}\u{ff12}", "\u{663}", "\u{131}", "\u{e9}.mp4", "\u{1F3B5}", "\u{a0}1", "1\u{3000}",
 ];
 
 /// line-level mutations of a text
